@@ -2,16 +2,22 @@
 
 package influxql
 
+import (
+	"fmt"
+	"time"
+)
+
 // Specification functions for the contracts in verif_contracts.go.
 // They are written from the property statements, are never called by
 // production code and exist only under the build tag "verif".
 
 // spec_prec: the five binding levels of the expression grammar.
-//   * / % &                      5 (tightest)
-//   + - | ^                      4
-//   = != <> < <= > >= =~ !~      3
-//   AND                          2
-//   OR                           1
+//   - / % &                      5 (tightest)
+//   - - | ^                      4
+//     = != <> < <= > >= =~ !~      3
+//     AND                          2
+//     OR                           1
+//
 // every other token is not a binary operator: 0.
 func spec_prec(t Token) int {
 	if t == MUL || t == DIV || t == MOD || t == BITWISE_AND {
@@ -107,4 +113,147 @@ func spec_unitAt(a []rune, lo, hi, j int) bool {
 // spec_unitVal: multiplier of the unit starting at a[j].
 func spec_unitVal(a []rune, j int) int64 {
 	return spec_unit(spec_runeAt(a, j), spec_runeAt(a, j+1))
+}
+
+// spec_fmtUnit: the largest of the eight units that divides d (d != 0).
+func spec_fmtUnit(d int64) int64 {
+	if d%604800000000000 == 0 {
+		return 604800000000000
+	}
+	if d%86400000000000 == 0 {
+		return 86400000000000
+	}
+	if d%3600000000000 == 0 {
+		return 3600000000000
+	}
+	if d%60000000000 == 0 {
+		return 60000000000
+	}
+	if d%1000000000 == 0 {
+		return 1000000000
+	}
+	if d%1000000 == 0 {
+		return 1000000
+	}
+	if d%1000 == 0 {
+		return 1000
+	}
+	return 1
+}
+
+// spec_isUnit: u is one of the eight unit sizes.
+func spec_isUnit(u int64) bool {
+	return u == 1 || u == 1000 || u == 1000000 || u == 1000000000 || u == 60000000000 ||
+		u == 3600000000000 || u == 86400000000000 || u == 604800000000000
+}
+
+// spec_formatDuration: zero is "0s"; otherwise the count of the largest
+// dividing unit followed by that unit's name (microseconds are written "u").
+func spec_formatDuration(d time.Duration) string {
+	if d == 0 {
+		return "0s"
+	}
+	u := spec_fmtUnit(int64(d))
+	q := d / time.Duration(u)
+	if u == 604800000000000 {
+		return fmt.Sprintf("%dw", q)
+	}
+	if u == 86400000000000 {
+		return fmt.Sprintf("%dd", q)
+	}
+	if u == 3600000000000 {
+		return fmt.Sprintf("%dh", q)
+	}
+	if u == 60000000000 {
+		return fmt.Sprintf("%dm", q)
+	}
+	if u == 1000000000 {
+		return fmt.Sprintf("%ds", q)
+	}
+	if u == 1000000 {
+		return fmt.Sprintf("%dms", q)
+	}
+	if u == 1000 {
+		return fmt.Sprintf("%du", q)
+	}
+	return fmt.Sprintf("%dns", q)
+}
+
+// ---------------------------------------------------------------- C06 quoting
+
+// Character classes from the README's lexical section.
+func spec_isWhitespace(ch rune) bool { return ch == ' ' || ch == '\t' || ch == '\n' }
+func spec_isLetter(ch rune) bool     { return ('a' <= ch && ch <= 'z') || ('A' <= ch && ch <= 'Z') }
+func spec_isDigit(ch rune) bool      { return '0' <= ch && ch <= '9' }
+func spec_isIdentFirst(ch rune) bool { return spec_isLetter(ch) || ch == '_' }
+func spec_isIdentChar(ch rune) bool  { return spec_isLetter(ch) || spec_isDigit(ch) || ch == '_' }
+
+// spec_escFirst / spec_escSecond: the escape of one rune c inside a literal
+// delimited by q: newline -> \n, backslash -> \\, q -> \q, anything else
+// itself (second rune 0).
+func spec_escFirst(q, c rune) rune {
+	if c == '\n' || c == '\\' || c == q {
+		return '\\'
+	}
+	return c
+}
+
+func spec_escSecond(q, c rune) rune {
+	if c == '\n' {
+		return 'n'
+	}
+	if c == '\\' {
+		return '\\'
+	}
+	if c == q {
+		return q
+	}
+	return 0
+}
+
+// spec_escLen: number of runes of the escape.
+func spec_escLen(q, c rune) int {
+	if spec_escSecond(q, c) != 0 {
+		return 2
+	}
+	return 1
+}
+
+// Scanner side: one step from inside a quoted literal whose delimiter is q,
+// looking at runes c0 c1 (0 = end of input).
+//
+//	spec_scanKind: 0 literal continues, 1 closing delimiter, 2 bad string, 3 bad escape
+//	spec_scanRune: rune appended when the literal continues
+//	spec_scanLen:  runes consumed when the literal continues
+func spec_scanKind(q, c0, c1 rune) int {
+	if c0 == q {
+		return 1
+	}
+	if c0 == 0 || c0 == '\n' {
+		return 2
+	}
+	if c0 == '\\' {
+		if c1 == 'n' || c1 == '\\' || c1 == '"' || c1 == '\'' {
+			return 0
+		}
+		return 3
+	}
+	return 0
+}
+
+func spec_scanRune(c0, c1 rune) rune {
+	if c0 == '\\' {
+		if c1 == 'n' {
+			return '\n'
+		}
+		return c1
+	}
+	return c0
+}
+
+func spec_scanLen(c0 rune) int {
+	if c0 == '\\' {
+		return 2
+	}
+	return 1
 }
